@@ -415,6 +415,10 @@ func c18Flate(c *Ctx) {
 				if fold.Show(s.F[iErr]) != "nil" {
 					problems = append(problems, "Reset keeps the sticky error: every later Write/Flush fails")
 				}
+				problems = append(problems, otherFieldsZero(st, s, "wsflate.Writer", iCtor, iC, iCbuf, iErr, fieldIdx(st, "dest", typeIs("io.Writer")))...)
+				if cbs, ok := s.F[iCbuf].(fold.Struct); ok {
+					problems = append(problems, otherFieldsZero(cst, cbs, "wsflate.cbuf", bBuf, bN, bDst, bErr)...)
+				}
 				cbv, _ := s.F[iCbuf].(fold.Struct)
 				if fold.Show(cbv.F[bN]) != "0" || fold.Show(cbv.F[bBuf]) != "[0,0,0,0]" {
 					problems = append(problems, "Reset keeps withheld tail bytes of the previous message: "+fold.Show(cbv.F[bBuf])+" n="+fold.Show(cbv.F[bN]))
@@ -493,6 +497,7 @@ func c18Flate(c *Ctx) {
 			if fold.Show(s.F[iErr]) != "nil" {
 				problems = append(problems, "Reset keeps the sticky error")
 			}
+			problems = append(problems, otherFieldsZero(st, s, "wsflate.Reader", iSrc, iCtor, iD, iSr, iErr)...)
 			sv, _ := s.F[iSr].(fold.Struct)
 			if fold.Show(sv.F[sPos]) != "0" {
 				problems = append(problems, "Reset keeps the suffix position "+fold.Show(sv.F[sPos])+": the next message is not followed by the deflate tail")
@@ -546,4 +551,24 @@ func isObjRefAny(v fold.Val) (*fold.Obj, bool) {
 		return nil, false
 	}
 	return r.O, true
+}
+
+// otherFieldsZero: a reset is compared field by field for the fields the rule
+// knows; every other unexported field (a cache or counter added later) must be
+// back at its zero value, or the reset object differs from a new one.
+func otherFieldsZero(st *types.Struct, v fold.Struct, typ string, known ...int) []string {
+	skip := map[int]bool{}
+	for _, k := range known {
+		skip[k] = true
+	}
+	var out []string
+	for i := 0; i < st.NumFields() && i < len(v.F); i++ {
+		if skip[i] || st.Field(i).Exported() {
+			continue
+		}
+		if got, want := fold.Show(v.F[i]), fold.Show(fold.Zero(st.Field(i).Type())); got != want {
+			out = append(out, fmt.Sprintf("Reset leaves field %q of %s as it was (%s): a reused object differs from a new one", st.Field(i).Name(), typ, got))
+		}
+	}
+	return out
 }
